@@ -5,15 +5,20 @@ package registration_test
 // contract, not against the three back ends. This test runs honest
 // enrollments (operator-authorized, activation token, wrapper-based twice with
 // a shrinking record) on the in-memory, file and store-once back ends, with and
-// without a storage wrapper: 3 back ends x 2 x 4 flows. It runs on every check
-// and is not counted as proved.
+// without a storage wrapper: 3 back ends x 2 x 4 flows; and, per back end, the
+// operator flow under a pooled (multi-key) storage wrapper whose encrypting key
+// is rotated between the operator's authorization and the node's fetch (records
+// sealed under the earlier key stay readable through the pool). It runs on
+// every check and is not counted as proved.
 
 import (
 	"bytes"
 	"context"
 	"testing"
 
+	wrapping "github.com/hashicorp/go-kms-wrapping/v2"
 	"github.com/hashicorp/go-kms-wrapping/v2/aead"
+	"github.com/hashicorp/go-kms-wrapping/v2/extras/multi"
 	"github.com/hashicorp/nodeenrollment"
 	"github.com/hashicorp/nodeenrollment/registration"
 	"github.com/hashicorp/nodeenrollment/rotation"
@@ -39,6 +44,7 @@ func TestVerifBoundedC04Backends(t *testing.T) {
 		"store-once": func() nodeenrollment.Storage { s, _ := storeonce.New(ctx); return s },
 	}
 	for bname, mk := range backends {
+		vbC04PooledRotation(t, bname, mk())
 		for _, wrapped := range []bool{false, true} {
 			st := mk()
 			var sopt []nodeenrollment.Option
@@ -110,5 +116,48 @@ func TestVerifBoundedC04Backends(t *testing.T) {
 				t.Errorf("%s: after re-registration without state the stored record still carries the old state", name)
 			}
 		}
+	}
+}
+
+// vbC04PooledRotation: operator flow on st under a pooled storage wrapper; the
+// encrypting key moves on between AuthorizeNode and FetchNodeCredentials.
+func vbC04PooledRotation(t *testing.T, bname string, st nodeenrollment.Storage) {
+	t.Helper()
+	ctx := context.Background()
+	name := bname + " (pooled storage wrapper, key rotated between authorize and fetch)"
+	mk := func(id string) wrapping.Wrapper {
+		w := aead.TestWrapper(t)
+		if _, err := w.SetConfig(ctx, wrapping.WithKeyId(id)); err != nil {
+			t.Fatal(err)
+		}
+		return w
+	}
+	oldKey, newKey := mk("verif-kms-key-v1"), mk("verif-kms-key-v2")
+	pool, err := multi.NewPooledWrapper(ctx, oldKey)
+	if err != nil {
+		t.Fatal(err)
+	}
+	sopt := nodeenrollment.WithStorageWrapper(pool)
+	if _, err := rotation.RotateRootCertificates(ctx, st, sopt); err != nil {
+		t.Fatalf("%s: %v", name, err)
+	}
+	creds, req, keyId, _ := vrFreshNode(t)
+	if _, err := registration.AuthorizeNode(ctx, st, req, sopt); err != nil {
+		t.Fatalf("%s: %v", name, err)
+	}
+	if ok, err := pool.SetEncryptingWrapper(ctx, newKey); err != nil || !ok {
+		t.Fatalf("%s: set-up: cannot rotate the pool's encrypting key (%v)", name, err)
+	}
+	if cur, _ := pool.KeyId(ctx); cur != "verif-kms-key-v2" {
+		t.Skipf("%s: set-up: pool reports key id %q", name, cur)
+	}
+	resp, err := registration.FetchNodeCredentials(ctx, st, req, sopt)
+	if err != nil || !vrOpens(creds, resp) {
+		t.Errorf("%s: honest node got no usable response (%v)", name, err)
+		return
+	}
+	rec, err := types.LoadNodeInformation(ctx, st, keyId, sopt)
+	if err != nil || len(rec.CertificateBundles) != 2 {
+		t.Errorf("%s: the stored node record cannot be loaded after the fetch: %v", name, err)
 	}
 }
